@@ -529,6 +529,19 @@ func (q *checker) bcheckAssignment(lhs *a.Expr, op t.ID, rhs *a.Expr) error {
 		return nil
 	}
 
+	// Assigning to (part of) a field of this can change what this's pure
+	// methods return: facts such as "x == this.foo()" do not survive it.
+	if containerRoot(lhs).IsThisDotFoo() != 0 {
+		if err := q.facts.update(func(x *a.Expr) (*a.Expr, error) {
+			if containsCallOnThis(x) {
+				return nil, nil
+			}
+			return x, nil
+		}); err != nil {
+			return err
+		}
+	}
+
 	// A store to one element of an array or slice can change the value of any
 	// other element expression over the same storage: a fact about "x[j]"
 	// does not survive "x[i] = v" (the checker does not track whether i and j
@@ -1982,6 +1995,24 @@ func mentionsElementOf(x *a.Expr, root *a.Expr) bool {
 			if r.Eq(root) ||
 				((r.MType() != nil) && r.MType().IsEitherSliceType()) ||
 				((root.MType() != nil) && root.MType().IsEitherSliceType()) {
+				found = true
+			}
+		}
+		return nil
+	})
+	return found
+}
+
+// containsCallOnThis returns whether n contains a call of a method of this,
+// such as "this.foo(a: b)".
+func containsCallOnThis(n *a.Expr) bool {
+	found := false
+	n.AsNode().Walk(func(o *a.Node) error {
+		if found || (o.Kind() != a.KExpr) {
+			return nil
+		}
+		if o := o.AsExpr(); o.Operator() == a.ExprOperatorCall {
+			if recv, _, _, ok := o.IsMethodCall(); ok && (recv.Operator() == 0) && (recv.Ident() == t.IDThis) {
 				found = true
 			}
 		}
